@@ -642,6 +642,34 @@ func nbnsScenarios(c *vf.Ctx, B int) []*scenario {
 				}
 				conn.Close()
 			}})
+			// an idle client CONNECTS while Stop is running: whatever the order of accept / register / sweep / quit,
+			// Stop returns promptly and nothing is left behind
+			out = append(out, &scenario{name: "nbns-TCPServer-stop-vs-connecting-idle-client", keys: respKeys, bound: B, body: func(x *exec) {
+				s, t := im.mk()
+				seed(t)
+				if err := s.Start(); err != nil {
+					panic("harness: start: " + err.Error())
+				}
+				var conn net.Conn
+				hc := vrt.GoNamed("idle-client", func() {
+					c, err := vnet.Dial("tcp", "127.0.0.1:137")
+					if err != nil {
+						x.obs("dial refused")
+						return
+					}
+					conn = c
+					x.obs("connected")
+				})
+				hs := vrt.GoNamed("stopper", func() { stopAndDrainNoWait(x, s) })
+				vrt.Join(hc)
+				vrt.Join(hs)
+				if alive := vrt.Drain(120 * sec); len(alive) > 0 {
+					x.fail("no-goroutine-left-after-stop", "threads still alive 120 virtual seconds after Stop returned: %v", alive)
+				}
+				if conn != nil {
+					conn.Close()
+				}
+			}})
 			out = append(out, &scenario{name: "nbns-TCPServer-stop-with-two-idle-connections", keys: respKeys, bound: B, body: func(x *exec) {
 				s, t := im.mk()
 				seed(t)
